@@ -130,7 +130,7 @@ func tierDeadline(tier string) time.Duration {
 	if tier == "thorough" {
 		return 25 * time.Minute
 	}
-	return 150 * time.Second
+	return 300 * time.Second
 }
 
 type workerProc struct {
